@@ -55,9 +55,10 @@ pub fn extract_tag(data: &[u8], attrs: &HashMap<String, String>) -> String {
         return t.clone();
     }
     if data.starts_with(b"T:") {
-        if let Ok(s) = std::str::from_utf8(&data[2..]) {
-            // the tag ends at the first '|' (padding follows)
-            return s.split('|').next().unwrap_or("").to_string();
+        // the tag ends at the first '|' (arbitrary padding may follow)
+        let end = data.iter().position(|b| *b == b'|').unwrap_or(data.len());
+        if let Ok(s) = std::str::from_utf8(&data[2..end]) {
+            return s.to_string();
         }
     }
     String::new()
